@@ -339,7 +339,7 @@ fn worker(_path: &str) {
 fn pools_for(item: &Item, json: &str) -> Vec<usize> {
     match item {
         // tiny traces: cheap, and the interesting pool sizes are the ones above the trace length
-        Item::Proof { shape } if shape.log_n <= 5 => (1..=64).collect(),
+        Item::Proof { shape } if shape.log_n <= 5 || (shape.log_n <= 8 && shape.opts.log_blowup >= 5 && shape.aux.is_none() && shape.rules.len() <= 3) => (1..=64).collect(),
         Item::Proof { .. } => {
             let mut v = POOLS.to_vec();
             // five more sizes from a stream seeded by the item (splitmix64: the earlier `h / 64 + c` recurrence
@@ -409,6 +409,22 @@ fn item_strategy(tier: Tier) -> BoxedStrategy<Item> {
             }
             Item::Proof { shape: Box::new(s) }
         }),
+        // short traces under a large LDE blowup with low-degree constraints: the LDE domain is at or above the
+        // sizes at which work is split (8192) while the constraint evaluation domain is 16..64 times smaller
+        1 => (shape_strategy(&p), 6u32..=8, 5u8..=7).prop_map(|(mut s, log_n, log_blowup)| {
+            s.log_n = log_n;
+            s.opts.log_blowup = log_blowup;
+            s.degenerate = false;
+            s.aux = None;
+            s.rules.truncate(3);
+            for r in s.rules.iter_mut() {
+                r.d_sel %= 1000;
+            }
+            if s.hasher >= 3 {
+                s.hasher = 0;
+            }
+            Item::Proof { shape: Box::new(s) }
+        }),
     ]
     .boxed()
 }
@@ -421,7 +437,7 @@ fn label_of(item: &Item) -> String {
         Item::Merkle { log_leaves, .. } => format!("merkle:leaves=2^{log_leaves}"),
         Item::Matrix { log_rows, log_blowup, cols, .. } => format!("matrix:lde-rows=2^{}:cols{}", log_rows + log_blowup, if *cols >= 100 { ">=100" } else { "<100" }),
         Item::Fri { log_n, .. } => format!("fri:n=2^{log_n}"),
-        Item::Proof { shape } => format!("proof:log_n={}{}", shape.log_n, if shape.log_n <= 5 && shape.opts.log_blowup == 7 { ":blowup128" } else { "" }),
+        Item::Proof { shape } => format!("proof:log_n={}{}", shape.log_n, if shape.log_n <= 5 && shape.opts.log_blowup == 7 { ":blowup128" } else if shape.log_n <= 8 && shape.opts.log_blowup >= 5 { ":short-trace-large-blowup" } else { "" }),
     }
 }
 
@@ -460,7 +476,7 @@ impl SubCheck for Conc {
     }
     fn rule(&self) -> String {
         format!(
-            "workload items on both sides of every concurrency threshold: FFT evaluate/interpolate (with offset generator, 1 and 1/generator, and blowup)/twiddles at n in {{512,1024,2048,8192}}, power series / batch inversion with zeros / add_in_place / mul_acc at lengths {{1,1023,1024,1025,2047,2048,4096,10000}}, transpose_slice, Merkle trees of 2..4096 leaves (4 hashers), RowMatrix::evaluate_polys_over::<1|2|4|8|16> + row commitments for 1..255 columns x 8..16384 LDE rows (base and extension), apply_drp + hash_values, whole GenAir proofs up to 2^12 (quick) / 2^14 rows (constraint evaluation domains on both sides of 8192) and of 8..32 rows under blowup 128 with a constraint of degree > 64 (every pool size 1..64); each item is computed serially (build without the feature) and in the concurrent build inside rayon pools of {:?} threads, 2 (quick) / 3 (thorough) repetitions each, and once in pools of every other size 1..64 (whole proofs: five other sizes derived from the item); all digests must be equal (for proofs: context, all commitments, OOD frame; both proofs must verify; nonce and query data exempt); non-trivial = item at or above its concurrency threshold; schedules are sampled, not enumerated",
+            "workload items on both sides of every concurrency threshold: FFT evaluate/interpolate (with offset generator, 1 and 1/generator, and blowup)/twiddles at n in {{512,1024,2048,8192}}, power series / batch inversion with zeros / add_in_place / mul_acc at lengths {{1,1023,1024,1025,2047,2048,4096,10000}}, transpose_slice, Merkle trees of 2..4096 leaves (4 hashers), RowMatrix::evaluate_polys_over::<1|2|4|8|16> + row commitments for 1..255 columns x 8..16384 LDE rows (base and extension), apply_drp + hash_values, whole GenAir proofs up to 2^12 (quick) / 2^14 rows (constraint evaluation domains on both sides of 8192) and of 8..32 rows under blowup 128 with a constraint of degree > 64, and of 64..256 rows under blowup 32..128 with constraints of degree 1..2 (LDE domain >= 8192 points, constraint evaluation domain 16..64 times smaller) (every pool size 1..64); each item is computed serially (build without the feature) and in the concurrent build inside rayon pools of {:?} threads, 2 (quick) / 3 (thorough) repetitions each, and once in pools of every other size 1..64 (whole proofs: five other sizes derived from the item); all digests must be equal (for proofs: context, all commitments, OOD frame; both proofs must verify; nonce and query data exempt); non-trivial = item at or above its concurrency threshold; schedules are sampled, not enumerated",
             POOLS
         )
     }
